@@ -298,6 +298,11 @@ def afterCall (r : Res) (found : List Hit) (any : Nat) : PyM (LoopOut ⊕ (List 
 def tagTest (st : Step) (tag : Str) (any : Nat) : Bool :=
   tag == st.tag || st.tag == star || st.tag == star2 || any != 0
 
+/-- a `recurse(...)` call under an `if`: made only when the guard holds -/
+def guarded (c : Bool) (r : Unit → Res) (found : List Hit) (ff : Bool) (any : Nat) :
+    PyM (LoopOut ⊕ (List Hit × Bool)) :=
+  if c then afterCall (r ()) found any else .ok (.inr (found, ff))
+
 /-- `for _cur_level_tag, _cur_level_dict in ordered_items: … else: return found` -/
 def forLoop (st : Step) (sought passed : List Str) (any : Nat) :
     List Kid → List Hit → List (Str × Nat) → Bool → PyM LoopOut
@@ -305,15 +310,14 @@ def forLoop (st : Step) (sought passed : List Str) (any : Nat) :
   | (tag, v, fn) :: rest, found, idxs, ff =>
     if tagTest st tag any then
       let name := stepName st tag (cnt idxs tag)
-      match (if idxOk st.idx (cnt idxs tag) && condHolds st.cond v
-             then afterCall (fn (sought.drop 1) (passed ++ [name]) any ff) found any
-             else .ok (.inr (found, ff))) with
+      -- `if required_index … and condition_validation(value): _found = recurse(value, sought[1:], …)`
+      match guarded (idxOk st.idx (cnt idxs tag) && condHolds st.cond v)
+              (fun _ => fn (sought.drop 1) (passed ++ [name]) any ff) found ff any with
       | .error e => .error e
       | .ok (.inl out) => .ok out
       | .ok (.inr (found1, ff1)) =>
-        match (if any = 1
-               then afterCall (fn sought (passed ++ [name]) any ff1) found1 any
-               else .ok (.inr (found1, ff1))) with
+        -- `if any_xpath == 1: _found = recurse(value, sought, …)` ("one more dive")
+        match guarded (any == 1) (fun _ => fn sought (passed ++ [name]) any ff1) found1 ff1 any with
         | .error e => .error e
         | .ok (.inl out) => .ok out
         | .ok (.inr (found2, ff2)) => forLoop st sought passed any rest found2 (incr idxs tag) ff2
